@@ -21,12 +21,20 @@ pub fn show_tok(t: &RawToken) -> String {
 }
 pub fn show_toks(sm: &SourceMap) -> String {
     let v: Vec<String> = sm.tokens().map(|t| show_tok(&t.get_raw_token())).collect();
+    let m = order_marker(sm);
+    if !m.is_empty() {
+        return m.to_string();
+    }
     if v.is_empty() { "-".into() } else { v.join(";") }
 }
 /// tokens in canonical order: by generated position (their iteration order) with ties - whose
 /// relative order `sort_unstable` does not define - ordered by the remaining fields
 pub fn show_toks_canon(sm: &SourceMap) -> String {
     let mut raws: Vec<RawToken> = sm.tokens().map(|t| t.get_raw_token()).collect();
+    let m = order_marker(sm);
+    if !m.is_empty() {
+        return m.to_string();
+    }
     let sorted_by_pos = raws.windows(2).all(|w| (w[0].dst_line, w[0].dst_col) <= (w[1].dst_line, w[1].dst_col));
     if !sorted_by_pos {
         return "unsorted ".to_string() + &show_toks(sm);
@@ -110,6 +118,10 @@ pub fn run(t: &[&str]) -> String {
                         out.push(format!("{}/{}/{}", idx, show_tok(&raw), tok.get_src_col()))
                     }
                 }
+            }
+            let m = order_marker(&sm);
+            if !m.is_empty() {
+                return format!("ok {}", m);
             }
             format!("ok {}", out.join(","))
         }
